@@ -947,6 +947,57 @@ class Piece:
                             self._add(toks[e2 - 1].end, toks[e2 - 1].end, " }", "T-CLOSURE", order=-99)
                     k = j
             k += 1
+        # T-CLOSURE (projection closures): `|p| p.a.b`, `|| v`, `|a, b| (a.x, b)`, `|h| !h.flag` .. - plain parameters, and a body made of
+        # variables, field accesses, literals, tuples, `&` `*` `!` and comparisons only (no call) - say what they return:
+        # `|p: _| -> (r__: _) ensures equal(r__, BODY) { BODY }`.  Nothing is assumed: the verifier proves the clause from the body.
+        k = kb
+        while k < k1 - 2:
+            if toks[k].text == "|" and (toks[k - 1].text in ("(", ",", "=", "{", ";", "move", "return") or (toks[k - 1].text == ">" and toks[k - 2].text == "=")):
+                j = k + 1
+                names, ok_ = [], True
+                if toks[j].text == "|" and toks[j].start == toks[k].end:
+                    pass
+                else:
+                    while j < k1 and toks[j].text != "|":
+                        if toks[j].kind == "ident" and toks[j].text != "_" and toks[j + 1].text in (",", "|"):
+                            names.append(j)
+                        elif toks[j].text != ",":
+                            ok_ = False
+                            break
+                        j += 1
+                bs = j + 1
+                if ok_ and j < k1 and toks[j].text == "|" and toks[bs].text not in ("{", "-"):
+                    e2 = bs
+                    while e2 < k1 and toks[e2].text not in (",", ")", ";", "]", "}"):
+                        if toks[e2].text == "(":
+                            e2 = match_close(toks, e2)
+                        elif toks[e2].text in ("[", "{"):
+                            ok_ = False
+                            break
+                        e2 += 1
+                    body = toks[bs:e2]
+                    ALLOWED_P = set(". ( ) , & * ! = < >".split())
+                    for q_, t_ in enumerate(body):
+                        if t_.kind == "ident":
+                            if t_.text in ("move", "return", "if", "match", "as", "mut", "async", "await", "loop", "while", "for", "unsafe") or \
+                                    (q_ + 1 < len(body) and body[q_ + 1].text in ("(", "!", ":")):
+                                ok_ = False
+                        elif t_.kind == "lit":
+                            pass
+                        elif t_.kind == "punct":
+                            if t_.text not in ALLOWED_P:
+                                ok_ = False
+                        else:
+                            ok_ = False
+                    if ok_ and body and e2 < k1:
+                        btxt = self.sf.text[toks[bs].start:toks[e2 - 1].end]
+                        for n_ in names:
+                            self._add(toks[n_].end, toks[n_].end, ": _", "T-CLOSURE", order=-99)
+                        self._add(toks[bs].start, toks[bs].start, f"-> (r__: _) ensures equal(r__, {btxt}) {{ ", "T-CLOSURE", order=-99)
+                        self._add(toks[e2 - 1].end, toks[e2 - 1].end, " }", "T-CLOSURE", order=-99)
+                        k = e2
+                        continue
+            k += 1
         # allocation guard: `with_capacity(N)` / `reserve(N)` / `vec![x; N]` panic ("capacity overflow") or abort (allocation failure)
         # for a large N, and vstd states no bound for them.  N may be a literal, a constant or the length of something that exists;
         # any other size is one the contracts do not bound: undecided (never passed silently, never an alarm)
@@ -2105,6 +2156,10 @@ class Unit:
                 src = open(os.path.join(REPO, relpath), encoding="utf-8").read()
             except OSError:
                 continue
+            # (a carried-over constant may itself name an imported type: `const T: Duration = Duration::from_secs(10);`)
+            for mc0 in re.finditer(r"(?m)^(?:pub(?:\([^)]*\))?\s+)?const\s+(\w+)\s*:[^;]+;", src):
+                if re.search(r"\b" + re.escape(mc0.group(1)) + r"\b", vt + self._all_vtext) and not declared(mc0.group(1)):
+                    vt = vt + "\n" + mc0.group(0)
             for mu in re.finditer(r"(?m)^(?:pub(?:\([^)]*\))?\s+)?use\s+([^;]+);", src):
                 flat = []
                 flatten("", re.sub(r"\s+", " ", mu.group(1)), flat)
